@@ -250,6 +250,62 @@ def Root.lastNonBlankOrEmpty (r : Root) : Bool :=
   | none => false
   | some s => s.isEmpty || lastLineNonBlank s.toList
 
+/-! ### A program with some leaves replaced by ambient-independent ones (for stating "clean except for …") -/
+
+/-- The leaf with nothing to read: its value is a function of the declared inputs and the loop context only. -/
+def Leaf.scrub (ids : List Nat) (l : Leaf) : Leaf := if ids.contains l.id then ⟨l.id, [], []⟩ else l
+
+def Tpl.scrub (ids : List Nat) : Tpl → Tpl
+  | .nil => .nil
+  | .text i => .text i
+  | .out e => .out (e.scrub ids)
+  | .seq a b => .seq (a.scrub ids) (b.scrub ids)
+  | .ite (.leaf l) t e => .ite (.leaf (l.scrub ids)) (t.scrub ids) (e.scrub ids)
+  | .ite c t e => .ite c (t.scrub ids) (e.scrub ids)
+  | .loop e b => .loop (e.scrub ids) (b.scrub ids)
+  | .call m => .call m
+  | .filterBlock f t => .filterBlock (f.scrub ids) (t.scrub ids)
+
+/-- The templates of a language with the leaves `ids` replaced by any ambient-independent function of the same
+arguments (what the program would be if those expressions were repaired). -/
+def Lang.scrub (L : Lang) (ids : List Nat) : Lang := { L with program := L.program.map (Tpl.scrub ids) }
+
+/-! ### Everything registered in a template environment (`Gen/TplCallables.lean`) -/
+
+/-- A filter, test or global of a real `CodeGenEnvironment`: the source classes the translator found for it (hand table ∪
+scan of its body) and the classes removed by a sanitiser that applies to EVERY use (per-file reset of the unique-name
+generator, memoisation transparency). -/
+structure Callable where
+  what    : String        -- "filter" | "test" | "global"
+  name    : String        -- as registered (`ln.cpp.id`)
+  short   : String        -- last component
+  reads   : List Src
+  removes : List Src
+deriving Repr
+
+def Callable.effective (c : Callable) : List Src := c.reads.filter fun s => !c.removes.contains s
+
+/-- The registered names a template may use to read something that is not a declared input — by design and documented, or a
+known finding.  Everything else registered in an environment must be clean:
+* `now_utc` (time stamp of the generation; the built-in templates print it only under `nunavut.embed_auditing_info`);
+* Jinja's own `lipsum` global and `random` filter;
+* `includes` (C, C++): the hash-ordered set of dependencies, sorted unless the template passes `sort=False`;
+* `type_to_include_path`: returns the absolute output path of a type;
+* `pickle` (Python): serialises the PyDSDL model — absolute source path and cache fill state (known findings). -/
+def expectedAmbient : List (String × String × List Src) :=
+  [ ("global", "now_utc", [.time]), ("global", "lipsum", [.random]), ("filter", "random", [.random]),
+    ("filter", "includes", [.hashOrder]), ("filter", "type_to_include_path", [.absPath, .hashOrder]),
+    ("filter", "pickle", [.absPath, .psModelCache]) ]
+
+def Callable.allowed (c : Callable) : List Src :=
+  match expectedAmbient.find? fun e => e.1 = c.what && e.2.1 = c.short with
+  | some e => e.2.2
+  | none => []
+
+/-- Restricted to the classes `cs`: clean, or one of the expected names with no more than its expected classes. -/
+def Callable.asExpected (cs : List Src) (c : Callable) : Bool :=
+  (c.effective.filter cs.contains).all c.allowed.contains
+
 /-! ### `sorted` on strings (include lists) -/
 
 /-- Python compares `str` by code point, lexicographically. -/
